@@ -6,16 +6,16 @@ SPEC = Spec(
     harnesses=[
         Harness(name="fanout", module="internal/fanoutconsumer", pkg="internal/fanoutconsumer",
                 files={"zz_verif_c06_fanout_test.go": "c06/fanout_test.go"},
-                test="TestVerifC06Fanout", driver="drv_c06", n={"quick": 400, "thorough": 4000}),
+                test="TestVerifC06Fanout", driver="drv_c06", n={"quick": 2500, "thorough": 40000}),
         Harness(name="router", module="connector", pkg="connector",
                 files={"zz_verif_c06_router_test.go": "c06/router_test.go"},
-                test="TestVerifC06Router", driver="drv_c06", n={"quick": 300, "thorough": 3000}),
+                test="TestVerifC06Router", driver="drv_c06", n={"quick": 1500, "thorough": 20000}),
         Harness(name="exporter", module="exporter", pkg="exporter/exporterhelper",
                 files={"zz_verif_c06_exporter_test.go": "c06/exporter_test.go"},
-                test="TestVerifC06Exporter", driver="drv_c06", n={"quick": 200, "thorough": 3000}),
+                test="TestVerifC06Exporter", driver="drv_c06", n={"quick": 1200, "thorough": 20000}),
         Harness(name="graph", module="service", pkg="service/internal/graph",
                 files={"zz_verif_c06_graph_test.go": "c06/graph_test.go"},
-                test="TestVerifC06Graph", driver="drv_c06", n={"quick": 400, "thorough": 5000}),
+                test="TestVerifC06Graph", driver="drv_c06", n={"quick": 2000, "thorough": 30000}),
     ],
     rule="exporter: exporters built with the real exporter helper (logs/traces/metrics) from random option lists (own capability "
          "declaration none/false/true, batching through sending_queue::batch / legacy batcher / none, neutral options, random "
